@@ -1,9 +1,10 @@
 import SqlModel.Options
-import SqlModel.Generated.ControlIR
+import SqlModel.Generated.ControlRun
 import SqlProofs.OptionsTotal
 import SqlProofs.AccessorSpec
 import SqlModel.Pipeline
 import SqlProofs.SplitNonWs
+import SqlProofs.GroupTotal
 /-!
 # C07 — totality: any text and any valid option set gives a result or SQLParseError
 
@@ -43,5 +44,12 @@ theorem lexSplit_total (s : Array Cp) : ∃ sts, lexSplit s = .ok sts := lexSpli
 theorem split_total (s : Array Cp) : ∃ ps, split s = .ok ps := by
   obtain ⟨sts, h⟩ := lexSplit_ok s
   exact ⟨sts.map (pyStrip ∘ stmtText), by simp [split, h, Except.map]⟩
+
+/-- **grouping is total**: on every flat statement the 25 passes return a tree or fail with RecursionError (fuel) — no IndexError, TypeError, … from any index computation; with enough
+recursion depth they return, and more depth never changes the result -/
+theorem grouping_total : type_of% @groupStatement_total := @groupStatement_total
+theorem grouping_total_wf : type_of% @group_total := @group_total
+theorem grouping_fuel_enough : type_of% @group_fuel_enough := @group_fuel_enough
+theorem grouping_fuel_monotone : type_of% @group_mono := @group_mono
 
 end Sql.C07
